@@ -683,7 +683,8 @@ def check_random(ctx, rng, desc, spec, case):
       x = ExtremeRandom(rng.randrange(1 << 30), mode)
       # unbound first (see above); stub_draws of the modes draw once more, bound
       for kw in [{'attach_spec': False}] + [{}] * (mode in bound):
-        d = lib_call(ctx, 'random_dna[extreme-rng]' + sfx,
+        # (a bound draw that raises is labelled by the entry point alone)
+        d = lib_call(ctx, ('random_dna[extreme-rng]' if kw else 'random_dna') + sfx,
                      lambda: spec.random_dna(x, **kw), case)
         if isinstance(d, Raised):
           break
